@@ -48,8 +48,39 @@ def rand_time_arg(rng):
         return "_"
     return hx(specgen.Time(rng).text().encode())
 
+def special_docs(rng, doc):
+    """situations that need something specific: duplicate dates; pauses written as 0m / +0m / 0h with dashes in the summary"""
+    k = rng.random()
+    if k < 0.15 and len(doc.records) >= 2:
+        a, b = rng.sample(range(len(doc.records)), 2)
+        doc.records[b].ymd = doc.records[a].ymd            # two records sharing a date (legal)
+    return doc
+
+PAUSE_FORMS = ["0m", "+0m", "-0m", "0h", "-0h0m", "0m foo-bar", "+0m x-1m y", "-5m lunch-break", "-1h5m", "0m -", "-0m  #tag-a"]
+
+def pause_scenario(rng):
+    """a record dated 'today' with an open range and an existing pause in one of the spellings the specification allows"""
+    day = datetime.date(2022, rng.randint(1, 12), rng.randint(1, 28))
+    ind = rng.choice(["    ", "  ", "\t", "   "])
+    eol = rng.choice(["\n", "\r\n"])
+    lines = ["%04d-%02d-%02d" % (day.year, day.month, day.day)]
+    if rng.random() < 0.5: lines.append("summary - with-dash")
+    lines.append(ind + rng.choice(["8:00 - ?", "8:00-??? work #t-1", "<23:00 - ? x-y"]))
+    if rng.random() < 0.5: lines.append(ind + ind + "more - text-1m")
+    lines.append(ind + rng.choice(PAUSE_FORMS))
+    if rng.random() < 0.4: lines.append(ind + ind + "pause-note -3m")
+    text = eol.join(lines) + (eol if rng.random() < 0.8 else "")
+    now = datetime.datetime(day.year, day.month, day.day, 12, rng.randrange(60))
+    ticks = []
+    t = 0
+    for _ in range(rng.choice([1, 2, 4])):
+        t += rng.choice([61, 125, 30, 600, -100]); ticks.append(str(t))
+    steps = [Step(now, "stop", [hx(b"0001-01-01"), hx(b"0:00"), "_", "_"]),
+             Step(now, "pause", ["_", rng.choice("01"), "1", ",".join(ticks)])]
+    return text.encode(), ["_", "_", "_", "_"], steps
+
 def make_history(rng, max_steps=6, kinds=None, doc=None):
-    doc = doc or specgen.Doc(rng, max_records=4, max_entries=4)
+    doc = doc or special_docs(rng, specgen.Doc(rng, max_records=4, max_entries=4))
     dates = [datetime.date(*r.ymd) for r in doc.records if 1 <= r.ymd[0] <= 9998]
     base = rng.choice(dates) if dates and rng.random() < 0.8 else datetime.date(2021, 3, 14)
     base += datetime.timedelta(days=rng.choice([0, 0, 0, 1, 1, -1, 2]))
